@@ -610,6 +610,16 @@ class XPathToken(Token[ta.XPathTokenType]):
                 case AbstractQName():
                     if not isinstance(op2, (AbstractQName, UntypedAtomic)):
                         raise TypeError(msg.format(type(op1), type(op2)))
+                case AbstractDateTime():
+                    if isinstance(op2, AbstractDateTime) and \
+                            context is not None and context.timezone is not None:
+                        # values without timezone are compared in the implicit timezone
+                        if op1.tzinfo is None:
+                            op1 = copy(op1)
+                            op1.tzinfo = context.timezone
+                        if op2.tzinfo is None:
+                            op2 = copy(op2)
+                            op2.tzinfo = context.timezone
 
             yield op1, op2
 
